@@ -544,6 +544,12 @@ func kvWorkload(prop string, args []string) int {
 	w := vlog.Open(a.Out)
 	shrunk := map[string]bool{}
 	for id := a.From; id < a.To; id++ {
+		if prop == "C12" && id%5 == 4 {
+			// executor-level clause: rollback through the ledger / the executor's own path on a
+			// real chain, then re-execute the same blocks and require the same block hashes
+			chainCase("C12", w, a, id)
+			continue
+		}
 		rng := vlog.CaseRand(a.Seed, "kv"+prop, id)
 		cfg := kvCfg{}
 		if rng.Intn(3) != 0 {
